@@ -123,6 +123,7 @@ fn main() {
             }
             out.flush();
         }
+        "probe" => { props::probe(&args[2..]); }
         "sizes" => {
             props::sizes();
         }
